@@ -71,7 +71,14 @@ fn expected_counts(format: Format, rec: &Rec) -> Vec<Vec<u64>> {
     for (s, ch) in rec.syms.chars().enumerate() {
         let j = alphabet_index(format, ch);
         for p in 0..rec.width {
-            m[p][j] = rec.cell(s, p).parse::<u64>().expect("HARNESS: model cell is not an integer");
+            let v = rec.cell(s, p).parse::<u64>().expect("HARNESS: model cell is not an integer");
+            // a TRANSFAC record holds f32 cells: a count above 2^24 reaches Python as the correctly rounded
+            // f32 of the written integer (generated below 2^31, so it fits the u32 table)
+            m[p][j] = if format.family() == "transfac" && v > 1 << 24 {
+                rec.cell(s, p).parse::<f32>().expect("HARNESS: model cell is not a float") as u64
+            } else {
+                v
+            };
         }
     }
     m
